@@ -105,6 +105,11 @@ def new_real(cls, variant, slot=0, shared=None):
 
     traj, sites, events, states, inner, jd = prebuilt(variant)
     if cls == 'M':
+        if slot == 1 and shared is not None:
+            # obtained through the accessor of a trajectory that stays alive in the world
+            if ('traj', variant) not in shared:
+                shared['traj', variant] = concretise.make_trajectory(np.array(traj.positions), ['Li'] * 2, np.asarray(traj.get_lattice().matrix), time_step=traj.time_step, temperature=400.0)
+            return shared['traj', variant].metrics()
         return TrajectoryMetrics(traj)
     if cls == 'T':
         return Transitions(trajectory=traj, diff_trajectory=traj, sites=sites, events=events, states=states, inner_states=inner)
@@ -315,6 +320,26 @@ def make_build(kind, nslots, cls=None):
                     names = [calls_of(kind, cls)[c][0] for c in had_calls]
                     which = 'collective' if 'collective' in names else 'other'
                     w.errors.append((f'cache-keeps-dropped-object-alive-{which}', f'{type(wr()).__name__} still alive after drop+gc; cached calls made on it: {names}', ei))
+            elif op == 'copy':
+                # slot 1 becomes a shallow copy of the object in slot 0, given the OTHER variant's data
+                import copy as _copy
+
+                src = w.slots[0]
+                v_other = 1 - w.variant[0]
+                obj = _copy.copy(src)
+                if kind == 'probe':
+                    obj.data = ('data', v_other)
+                    obj.no = next(type(obj).serial)
+                elif cls == 'M':
+                    obj.trajectory = prebuilt(v_other)[0]
+                elif cls == 'T':
+                    o2 = new_real('T', v_other)
+                    obj.__dict__.update(o2.__dict__)
+                else:
+                    o2 = new_real('J', v_other, 1, w.shared)
+                    obj.__dict__.update({k: v for k, v in o2.__dict__.items()})
+                w.slots[1], w.variant[1] = obj, v_other
+                w.called = {(ss, c) for (ss, c) in w.called if ss != 1}
             elif op == 'gc':
                 gc.collect()
             elif op == 'flood':
@@ -351,6 +376,8 @@ def make_enabled(kind, nslots, cls, with_flood):
             else:
                 evs += [('call', s, c) for c in range(ncalls)]
                 evs.append(('drop', s))
+        if w.slots[0] is not None and nslots >= 2 and w.slots[1] is None and any(ss == 0 for ss, _ in w.called):
+            evs.append(('copy',))
         evs.append(('gc',))
         if with_flood and len(hist) <= 2 and not any(e[0] == 'flood' for e in hist):
             evs.append(('flood',))
